@@ -28,14 +28,21 @@ RowsA == { [tbl |-> "A", flow |-> f, openid |-> o, subject |-> s, key |-> k, pre
 ValidA == { r \in RowsA : (r.key # "rsa" => (r.openid /\ r.subject # "" /\ r.preset = "none")) }
 
 (* (B) offsets in ticks of auth_time relative to requested_at; max_age in ticks (0 = absent) *)
-Offsets == {-3, -1, 0, 1}
-MaxOK(ma, off) == ma = 0 \/ off >= -ma
-PromptOK(pr, off) == CASE pr = "none" -> off <= 0 [] pr = "login" -> off >= 0 [] OTHER -> TRUE
-HintOK(h) == h # "other"
+\* 50: auth_time lies in the future (after "now"); 99: the session has no auth_time at all
+Offsets == {-3, -1, 0, 1, 50, 99}
+MaxOK(ma, off) == IF off = 99 THEN ma = 0 ELSE (ma = 0 \/ off >= -ma)
+PromptOK(pr, off) ==
+  CASE pr = "none" -> off # 99 /\ off <= 0
+    [] pr = "login" -> off # 99 /\ off >= 0
+    [] pr \in {"none login", "bogus"} -> FALSE          \* none together with another value, an unknown value
+    [] pr = "consent" -> off # 99                         \* any prompt needs an auth_time to be judged against
+    [] OTHER -> TRUE                                      \* absent
+NotFuture(off) == off # 50
+HintOK(h) == h \in {"none", "same", "same_expired"}      \* other: another subject; garbage / no_sub / foreign_key: not a usable ID token of this server
 RowsB == { [tbl |-> "B", flow |-> f, max_age |-> ma, offset |-> off, prompt |-> pr, hint |-> h,
-            issued |-> MaxOK(ma, off) /\ PromptOK(pr, off) /\ HintOK(h)] :
-            f \in {"code", "implicit_idt_token", "hybrid_code_idt"}, ma \in {0, 2}, off \in Offsets, pr \in {"", "none", "login"},
-            h \in {"none", "same", "other", "same_expired"} }
+            issued |-> MaxOK(ma, off) /\ PromptOK(pr, off) /\ HintOK(h) /\ NotFuture(off)] :
+            f \in {"code", "implicit_idt_token", "hybrid_code_idt"}, ma \in {0, 2}, off \in Offsets, pr \in {"", "none", "login", "consent", "none login", "bogus"},
+            h \in {"none", "same", "other", "same_expired", "garbage", "no_sub", "foreign_key"} }
 
 ASSUME \A r \in ValidA : r.issued => (r.openid /\ r.subject # "")
 ASSUME \A r \in ValidA : (r.flow \in {"refresh", "refresh_hybrid"} => ~r.c_hash)
